@@ -1,0 +1,27 @@
+//go:build verif
+
+// Package vhook holds the scheduling hooks used by the verification
+// machinery in /verif. With the "verif" build tag a handler installed by
+// the harness is called at every hook.
+package vhook
+
+import "sync/atomic"
+
+var handler atomic.Pointer[func(site string, key any)]
+
+// SetHandler installs (or, with nil, removes) the function called at every
+// scheduling point.
+func SetHandler(h func(site string, key any)) {
+	if h == nil {
+		handler.Store(nil)
+		return
+	}
+	handler.Store(&h)
+}
+
+// Point marks a scheduling point and hands control to the harness.
+func Point(site string, key any) {
+	if h := handler.Load(); h != nil {
+		(*h)(site, key)
+	}
+}
